@@ -83,6 +83,9 @@ def check(case, ctx):
     fmt, ext = case['fmt'], case['ext']
     directory = fix if case['usedir'] else ''
     fail = lambda sig, msg: Violation(sig, '%s\nfmt=%s dir=%r\nsource=%r' % (msg, fmt, directory, src))
+    # (a conversion that draws from the e-mail obfuscation sequence comes first, so that what the package writer does with that sequence
+    # does not depend on what the worker happened to convert before this case)
+    w.convert('warm up <someone@example.com> and <other@example.org>\n', 'html', ext)
     r = w.convert(src, fmt, ext, api='sd', directory=directory)
     if r.status != 'ok':
         raise fail('result:' + r.status, '')
@@ -219,6 +222,23 @@ def check(case, ctx):
         ref = w.convert(src, fmt, ext, api='sd', directory=d).out
         if [n for n, _ in pkg.masked_view(open(o, 'rb').read())] != [n for n, _ in pkg.masked_view(ref)]:
             raise fail('cli:members-differ', '')
+        # a wildcard transclusion picks the flavour of the plain format the package embeds (epub: html, odt: fodt)
+        flav = {'epub': ('.html', 'OEBPS/main.xhtml'), 'odt': ('.fodt', 'content.xml')}.get(fmt)
+        if flav and '{{' not in src:
+            for e_ in ('.html', '.fodt', '.tex', '.txt'):
+                open(os.path.join(d, 'part' + e_), 'w').write('flavour%sword\n' % e_[1:])
+            f2, o2 = os.path.join(d, 'in2.txt'), os.path.join(d, 'out2.bin')
+            open(f2, 'wb').write(src.encode('utf-8', 'surrogateescape') + b'\n\n{{part.*}}\n')
+            p2 = subprocess.run([cli, '-t', fmt, '-o', o2, f2], stdout=subprocess.PIPE, stderr=subprocess.PIPE, env=dict(os.environ, ASAN_OPTIONS='detect_leaks=0'))
+            try:
+                body = zipfile.ZipFile(o2).read(flav[1])
+            except Exception as e:
+                raise fail('cli:no-output', 'wildcard leg rc=%d %r %r' % (p2.returncode, e, p2.stderr[-300:]))
+            want = ('flavour%sword' % flav[0][1:]).encode()
+            if want not in body:
+                raise fail('cli:wildcard-flavour', '%s does not contain the text of part%s (found: %r)' % (flav[1], flav[0], re.findall(rb'flavour\w+word', body)))
+            os.unlink(o2)
+            ctx.cls('cli_wildcard_flavour_checked')
         ctx.cls('cli_leg_checked')
     heads = bool(re.search(r'^#|^[=-]{3,}$', src, re.M))
     if has_asset:
